@@ -216,10 +216,11 @@ func (w c08word) describe() any {
 }
 
 // c08mode: how the server of a batch of cases came to require c08pass. Batches rotate over
-//   0 freshly started with c08pass
-//   1 started with c08old, stopped, SetRequirePass(c08pass), started again
-//   2 started WITHOUT a password; a client then issued CONFIG SET requirepass c08pass
-//   3 started with c08old; an authorized client then issued CONFIG SET requirepass c08pass (no restart)
+//
+//	0 freshly started with c08pass
+//	1 started with c08old, stopped, SetRequirePass(c08pass), started again
+//	2 started WITHOUT a password; a client then issued CONFIG SET requirepass c08pass
+//	3 started with c08old; an authorized client then issued CONFIG SET requirepass c08pass (no restart)
 func c08mode(idx int) int { return (idx / c08chunk) % 4 }
 
 var c08modeName = []string{"freshly-started", "password-changed-across-restart", "password-set-at-run-time-by-CONFIG-SET", "password-changed-at-run-time-by-CONFIG-SET"}
